@@ -376,7 +376,8 @@ macro_rules! impl_tryfrom_integer {
                             if matches!(e, lexical_core::Error::InvalidDigit(_)) {
                                 let value = lexical_core::parse::<$intermediate>(value)?;
 
-                                if !value.is_normal() {
+                                // Zero (`0.0`, `0E0`) is a perfectly good value, only NaN/infinity are not
+                                if !value.is_finite() {
                                     Err(lexical_core::Error::Overflow(0).into())
                                 } else if value > (<$from>::MAX as $intermediate) {
                                     Err(lexical_core::Error::Overflow(0).into())
